@@ -69,7 +69,8 @@ def checkDump (j : RJ) : List String :=
   let inv :=
     if j.tainted then []
     else
-      let expect := canonDB uuids keys (applyL (dbOf j.base) (c.uns.filterMap Op.toSync))
+      let baseT := tabulate uuids keys (dbOf j.base)
+      let expect := canonTable uuids keys (applyLTable uuids keys baseT (c.uns.filterMap Op.toSync))
       if expect == c.tasksTxt then [] else [s!"invariant broken tasks={c.tasksTxt} base⊕unsynced={expect}"]
   -- working set: always
   let ws0 := (if c.ws.head? == some none then [] else ["ws slot0-occupied"]) ++
